@@ -30,7 +30,7 @@ QReset == /\ Line.k = "reset"
           /\ l' = l + 1
 
 Verdict(why) == [case |-> run, chart |-> 0, exec |-> "mt_queue", line |-> l, property |-> "C08", why |-> why,
-                 action |-> Line.pt, expected |-> [q |-> q, pending |-> pending], got |-> Line, extra |-> <<>>]
+                 action |-> IF "pt" \in DOMAIN Line THEN Line.pt ELSE "end", expected |-> [q |-> q, pending |-> pending], got |-> Line, extra |-> <<>>]
 
 Bad(why) == /\ Report(Verdict(why)) /\ skip' = TRUE /\ UNCHANGED <<q, sent, pending, run>>
 
